@@ -28,6 +28,8 @@ def run(ctx):
         ctx.seed -= 5000
     else:
         ctx.corr(hx, ["hist", "--n", "400", "--len", "30", "--full", "30"])
+    # panicking arguments (nil / foreign handles, nil / foreign lists, nil callbacks), recovered by the caller (no Coq cases; lock model: C10_ts_releases_bad_arg)
+    ctx.corr(hx, ["misuse", "--n", "600" if thorough else "150"], cases_name="misuse.v")
     # free-running concurrent family of the thread-safe flavour (no Coq cases): plain build, then the same from a -race build (both tiers)
     free_args = ["free", "--ms", "400" if thorough else "200", "--rounds", "4" if thorough else "1"]
     ctx.corr(hx, free_args + ["--tag", "free"], cases_name="free.v")
@@ -95,5 +97,8 @@ def replay(ctx, obj):
     path = os.path.join(ctx.build, "replay_in.json")
     with open(path, "w") as f:
         json.dump(obj, f)
+    if (isinstance(case, dict) and case.get("c10_misuse")) or (isinstance(obj, dict) and obj.get("c10_misuse")):
+        ctx.corr(hx, ["misuse", "--replay", path], cases_name="replay_misuse.v")
+        return ctx.finish(LEVEL)
     ctx.corr(hx, ["hist", "--replay", path], cases_name="replay_cases.v")
     return ctx.finish(LEVEL)
